@@ -3,6 +3,8 @@ package vrun
 import (
 	"bytes"
 	"fmt"
+	"sync"
+	"sync/atomic"
 	"testing"
 
 	"github.com/mdzio/go-mqtt/message"
@@ -291,4 +293,74 @@ func counterHistory() {
 	out.Count("c03.counter.encodes", int64(i))
 	out.Class("counter/wraps>=2")
 	out.Sample("c03.counter", 1, map[string]int{"encodes": i, "publish_q1": pub1, "publish_q2": pub2, "subscribe": sub, "unsubscribe": unsub})
+}
+
+// TestC03CounterConc: the same automatic numbering, drawn by several goroutines
+// at once through many wraps of the 16-bit counter (the library's own sender
+// paths encode id-less requests from several goroutines). Every packet must
+// have exactly Len() bytes, a non-zero identifier equal to PacketID(), and be
+// accepted by the strict reference decoder.
+func TestC03CounterConc(t *testing.T) {
+	n := pick(8, 48)
+	for c := 0; c < n; c++ {
+		id := fmt.Sprintf("c03/counterconc/%d", c)
+		if !mine(c) || !out.Only(id) {
+			continue
+		}
+		seed := caseSeed("c03cc", c)
+		out.Begin(id, seed, nil)
+		gor := []int{2, 4, 8, 16}[c%4]
+		const wraps = 160
+		per := wraps * 65536 / gor
+		var bad atomic.Int64
+		var wg sync.WaitGroup
+		start := make(chan struct{})
+		for g := 0; g < gor; g++ {
+			wg.Add(1)
+			go func(g int) {
+				defer wg.Done()
+				buf := make([]byte, 64)
+				<-start
+				for k := 0; k < per && bad.Load() == 0; k++ {
+					var m message.Message
+					kind := "PUBLISH"
+					switch (k + g) % 3 {
+					case 0:
+						pm := message.NewPublishMessage()
+						pm.SetTopic([]byte("a/b"))
+						pm.SetQoS(byte(1 + k%2))
+						pm.SetPayload([]byte("x"))
+						m = pm
+					case 1:
+						sm := message.NewSubscribeMessage()
+						sm.AddTopic([]byte("a/+"), 1)
+						m, kind = sm, "SUBSCRIBE"
+					default:
+						um := message.NewUnsubscribeMessage()
+						um.AddTopic([]byte("a/+"))
+						m, kind = um, "UNSUBSCRIBE"
+					}
+					ln := m.Len()
+					w, err := m.Encode(buf)
+					ok := err == nil && w == ln && m.PacketID() != 0
+					if ok {
+						p, tot, derr := rc.Decode(buf[:w])
+						ok = derr == nil && tot == w && p.ID == m.PacketID()
+					}
+					if !ok {
+						if bad.Add(1) == 1 {
+							out.Violation("c03:autoid-zero:"+kind, fmt.Sprintf("%d goroutines encoding id-less packets: Len()=%d, Encode wrote %d (err=%v), PacketID()=%d, wire %s", gor, ln, w, err, m.PacketID(), hex(buf[:max(w, 0)])), map[string]interface{}{"goroutines": gor, "encode_number_of_goroutine": k})
+						}
+						return
+					}
+				}
+			}(g)
+		}
+		close(start)
+		wg.Wait()
+		out.Count("c03.counterconc.encodes", int64(gor*per))
+		out.Count("c03.counterconc.wraps", wraps)
+		out.Class(fmt.Sprintf("counterconc/g%d", gor))
+		out.End()
+	}
 }
